@@ -4,7 +4,7 @@ import AldorVerif.Lemmas.PriQ
 
 `HeapInv h`: no parent key exceeds a child key in the used slots (`heapParent j = (j-1)/2`).
 The statements are about every history of `priqInsert`/`priqExtractMin` from `priqNew`.
-`priqExtractMin` on an empty queue is outside the model's domain (`none`; undefined in C). -/
+`priqExtractMin` on an empty queue is outside the model's domain (`none`; C calls `bug`). -/
 namespace AldorVerif.PriQ
 
 /-- operations of a history -/
@@ -176,22 +176,28 @@ theorem priq_extract_sorted (argcGuess : Nat) (ops : List Op) :
   have h3 := priq_drain_sorted (run argcGuess ops).1 h1
   exact ⟨h1, by simpa [run] using h2, fun p1 q1 p2 q2 e1 e2 => two_extracts_ordered _ h1 p1 p2 q1 q2 e1 e2, h3.1, h3.2⟩
 
-/-- `priqCheck` answering without calling `bug` implies the heap order (it demands more: strictly
-    increasing keys from parent to child, so it also rejects legal heaps with equal keys). -/
-theorem priq_check_sound (q : PriQ) (hc : priqCheck q = true) : HeapInv q.argv := by
-  unfold priqCheck heapCheck at hc
-  rw [List.all_eq_true] at hc
-  intro j hj0 hjn
-  have := hc (j - 1) (by simp; omega)
-  have e : j - 1 + 1 = j := by omega
-  rw [e] at this
-  simp at this
-  omega
+/-- `priqCheck` answers (does not call `bug`) exactly when the heap order holds; equal keys
+    between parent and child are legal. -/
+theorem priq_check_iff (q : PriQ) : priqCheck q = true ↔ HeapInv q.argv := by
+  unfold priqCheck heapCheck
+  rw [List.all_eq_true]
+  constructor
+  · intro hc j hj0 hjn
+    have := hc (j - 1) (by simp; omega)
+    have e : j - 1 + 1 = j := by omega
+    rw [e] at this
+    simp at this
+    omega
+  · intro hi j hj
+    have hj' : j < q.argv.size - 1 := by simpa using hj
+    have := hi (j + 1) (by omega) (by omega)
+    simp
+    omega
 
-/-- … and the converse fails: a legal heap with two equal keys makes `priqCheck` call `bug`. -/
-theorem priq_check_rejects_equal_keys :
-    HeapInv (run 0 [.ins 1 0, .ins 1 1]).1.argv ∧ priqCheck (run 0 [.ins 1 0, .ins 1 1]).1 = false :=
-  ⟨(foldl_spec _ _ [] (by intro j _ hj; simp [priqNew] at hj) (by simp [priqNew])).1, by decide +kernel⟩
+/-- hence `priqCheck` succeeds after every history (also with equal keys) -/
+theorem priq_check_reachable (argcGuess : Nat) (ops : List Op) : priqCheck (run argcGuess ops).1 = true :=
+  (priq_check_iff _).mpr
+    (foldl_spec ops (priqNew argcGuess, []) [] (by intro j _ hj; simp [priqNew] at hj) (by simp [priqNew])).1
 
 /-! non-vacuity: a history with duplicate keys, growth of the slot array and an extraction
     in the middle; what is left drains in order. -/
